@@ -74,7 +74,7 @@
    model.  The correspondence evaluates every case THROUGH the copy (C09_Corr: ctx_run / flow_run /
    hcase_run) with the answer of /usr/bin/jq for the object as created in the cluster - objects shaped
    as an API server returns them in a large share of the cases. *)
-From Verif Require Import Common Json C09_Model C09_Spec C09_Proofs C09_CopyProofs.
+From Verif Require Import Common Json C09_Model C09_Spec C09_Proofs C09_CopyProofs C09_ShareModel C09_ShareProofs.
 
 Definition C09_full_statement : Prop :=
   forall v cs out, render_list v cs = Some out -> P v cs (Some out) = true.
@@ -396,3 +396,62 @@ Proof.
   split; [exact H1|]. split; [exact H2|]. split; [exact H3|]. split; [|exact H5].
   rewrite H2, H4. discriminate.
 Qed.
+
+(* ---------------- several kubernetes bindings on ONE resource: one shared informer ---------------- *)
+
+(* Bindings with an equal FactoryIndex share one client-go informer; every delivery is handled by
+   every binding's own handler (C09_ShareModel).  The snapshot a binding contributes when the hook
+   runs - its Synchronization `objects`, the `snapshots` arrays under its name - is the snapshot of
+   the cache of that binding ALONE on the resource after the same deliveries: a function of the
+   deliveries and of ITS OWN options (jqFilter answers, keepFullObjectsInMemory) only *)
+Theorem C09_share_snapshot_own : forall sh k b,
+  names_distinct (sh_binds sh) -> nth_error (sh_binds sh) k = Some b ->
+  hk_snapshots_for (share_hcase sh) (hk_evs (share_hcase sh)) (b_name b)
+  = Some (snapshot (own_cache b k sh)).
+Proof. exact share_snapshots_own. Qed.
+Print Assumptions C09_share_snapshot_own.
+
+(* the Event contexts of a binding for a delivery are those of the binding alone on the resource:
+   object, filterResult and whether the event fires do not depend on the other handlers that were
+   given the same object *)
+Theorem C09_share_contexts_own : forall sh k b pre t s,
+  names_distinct (sh_binds sh) -> nth_error (sh_binds sh) k = Some b ->
+  hk_contexts (share_hcase sh) (share_events (sh_binds sh) pre) (HWatch (b_name b) t (view k s))
+  = own_contexts b k (sh_initial sh) pre t s.
+Proof. exact share_contexts_own. Qed.
+Print Assumptions C09_share_contexts_own.
+
+(* other neighbours, other options of the neighbours, another position in the configuration: as
+   long as the binding sees the same objects and deliveries, it renders the same snapshot *)
+Theorem C09_share_binding_independent : forall sh1 sh2 k1 k2 b,
+  names_distinct (sh_binds sh1) -> names_distinct (sh_binds sh2) ->
+  nth_error (sh_binds sh1) k1 = Some b -> nth_error (sh_binds sh2) k2 = Some b ->
+  map (view k1) (sh_initial sh1) = map (view k2) (sh_initial sh2) ->
+  deliveries_of k1 (sh_evs sh1) = deliveries_of k2 (sh_evs sh2) ->
+  hk_snapshots_for (share_hcase sh1) (hk_evs (share_hcase sh1)) (b_name b)
+  = hk_snapshots_for (share_hcase sh2) (hk_evs (share_hcase sh2)) (b_name b).
+Proof. exact share_independent. Qed.
+Print Assumptions C09_share_binding_independent.
+
+(* the combined array of the bindings of one shared informer - Synchronization and Event items of
+   all of them, rendered after every binding handled every delivery - conforms item by item to the
+   contract of the item's OWN binding: `object` exactly when THAT binding keeps full objects,
+   `filterResult` exactly when THAT binding has a jqFilter and equal to the jq result for the
+   delivered object; F30 / F31 cannot occur here *)
+Theorem C09_share_contract_partial : forall sh,
+  hook_wf (share_hcase sh) = true -> T_hook (share_hcase sh) = false ->
+  P_hook (share_hcase sh) (Some (run_hook (share_hcase sh))) = true.
+Proof. exact share_contract. Qed.
+Print Assumptions C09_share_contract_partial.
+
+(* non-vacuity: `full` (keeps objects, jqFilter over .data) and `slim` (keepFullObjectsInMemory false,
+   jqFilter over the name) on one ConfigMap namespace meet the hypotheses; the array
+   [Synchronization full, Event full, Event slim, Synchronization slim] has four items; the predicate
+   rejects the same array when the `object` of the Event item of `full` is the stub that is left when
+   `slim` releases the body of the shared object *)
+Example C09_share_hyp_met :
+  names_distinct (sh_binds WitShare.sh) /\ hook_wf (share_hcase WitShare.sh) = true
+  /\ T_hook (share_hcase WitShare.sh) = false
+  /\ length (ho_items (run_hook (share_hcase WitShare.sh))) = 4%nat
+  /\ P_hook (share_hcase WitShare.sh) (Some WitShare.gutted_obs) = false.
+Proof. exact WitShare.sh_ok. Qed.
